@@ -54,6 +54,7 @@ fixed = [
  dict(property='C14', status='fixed', commit='60a4cb6', key='C14.R5/Predicate((-1, 0, 2),) with the spec never cached',
       what='fixed: property=C14 60a4cb6 Predicate((-1,0,2)) / Predicated(*s.spec) / LexicalAbc(s.ident) for Identity and Existence sentences raised ValueError once ~1000 later items had evicted the system predicate spec from the construction cache'),
 ]
+CLASSICAL = ('CPL', 'CFOL', 'K', 'D', 'T', 'S4', 'S5')
 def triage(prop, f):
     k = f['key']; d = f.get('detail', {})
     lg, rule, dirn, val = d.get('logic'), d.get('rule'), d.get('direction'), d.get('valuation', '')
@@ -63,6 +64,10 @@ def triage(prop, f):
         return f'F6: {lg} rule {rule} {dirn} at {val} (FDE-family linear-order tables vs lattice rules; pinned by test_fde.TestTables)'
     if lg in B3E and rule in ('BiconditionalUndesignated', 'BiconditionalNegatedDesignated') and dirn == 'unsound' and val in ('FT', 'NT', 'TF', 'TN'):
         return f'F7: {lg} rule {rule} unsound at {val} (one-branch schema inherited; pinned by test_b3e Biconditional_Elimination_3)'
+    if prop == 'C08' and k.startswith('C08.R5/') and d.get('logic') in CLASSICAL and d.get('kind') in ('symmetric', 'respects'):
+        return (f"F15: {d['logic']} model, values set as [{d['scenario']}]: after finish() identity is "
+                + ('not symmetric' if d['kind'] == 'symmetric' else 'not respected by a predicate extension (only whole-sale substitution, one direction)')
+                + ' -- e.g. CFOL model with a=b true evaluates b=a false; repairing the model alone would make the prover\'s open branch for a=b |- b=a (IdentityIndiscernability never rewrites negated predications) fail to build')
     return None
 out = list(fixed); refused = []
 for p in PROPS:
